@@ -4,9 +4,9 @@ import market_checks
 import runner_props
 
 PROP = "C10"
-LEAN_MODULES = ["PamsProps.C10", "PamsProps.SimE2E"]
-NAMESPACES = ["Pams.C10", "Pams.C10"]
-DRIVERS = ["Market", "Runner", "Pure", "Sim"]
+LEAN_MODULES = ["PamsProps.C10", "PamsProps.SimE2E", "PamsProps.SrcRunner"]
+NAMESPACES = ["Pams.C10", "Pams.C10", "Pams.C10"]
+DRIVERS = ["Market", "Runner", "Pure", "Sim", "PyRun"]
 TRUSTED = [
     "Logger.process dispatch by isinstance is observed, not modelled: a recording Logger subclass overrides write/bulk_write/write_and_direct_process/_process/process_* and delegates",
     "scheduler model: markets/agents/events/draws are oracles (tape recorded from the real run)",
@@ -89,7 +89,10 @@ def run(ctx, model_available=True):
         n, diffs = logger_units(ctx, 300 * (ctx.scale if ctx.tier == "thorough" else 1))
         res["diffs"] += diffs[:20]
         res["comparisons"]["logger_sequences_compared"] = n
-    return res
+    # (T2) the translated source of the scheduler (where it writes its own records) under the mini-Python
+    # semantics, against CPython
+    import py_checks
+    return py_checks.merge(res, ctx, ["runner"], n_each=100, model_available=model_available)
 
 
 def search(ctx, res):
